@@ -934,7 +934,83 @@ def translate_chain():
                "    `self_steps` is what `fit` left: per step, its predictor if it has a `predict` method -/\n"
                "def chainPredict (self_steps : List (Option Predictor)) (coordinates : List (List Rat)) : Except Err (List Acc) := do\n"
                + "\n".join("  " + ln for ln in lines) + "\n")
+    out.append(translate_gridder_filter())
     return HEADER_CHAIN + "\n".join(out) + "\nend Verde.Gen\n"
+
+
+def translate_gridder_filter():
+    """BaseGridder.filter over an abstract `fit` (what fitting leaves in the object is its predictor)."""
+    path = "verde/base/base_classes.py"
+    src = open(os.path.join(REPO, path)).read()
+    tree = ast.parse(src)
+    cls = [n for n in tree.body if isinstance(n, ast.ClassDef) and n.name == "BaseGridder"]
+    fn = [n for n in cls[0].body if isinstance(n, ast.FunctionDef) and n.name == "filter"] if cls else []
+    if not fn:
+        raise Untranslatable("BaseGridder.filter not found")
+    fn = fn[0]
+    if [a.arg for a in fn.args.args] != ["self", "coordinates", "data", "weights"]:
+        _fail(fn, "filter signature")
+    b = [x for x in fn.body if not (isinstance(x, ast.Expr) and isinstance(x.value, ast.Constant))]
+    lines = []
+    k = 0
+    st = b[k]
+    c = st.value if isinstance(st, ast.Expr) else None
+    if not (isinstance(c, ast.Call) and isinstance(c.func, ast.Attribute) and _is_name(c.func.value, "self") and c.func.attr == "fit"):
+        _fail(st, "filter: self.fit(...)")
+    given = dict(zip(["coordinates", "data", "weights"], c.args))
+    for kw in c.keywords:
+        given[kw.arg] = kw.value
+    if sorted(given) != ["coordinates", "data", "weights"] or not all(isinstance(v, ast.Name) for v in given.values()):
+        _fail(st, "filter: arguments of self.fit")
+    lines.append(f"let self_predict ← self_fit ⟨{given['coordinates'].id}, {given['data'].id}, {given['weights'].id}⟩      -- self.fit(...): leaves the predictor in the object")
+    k += 1
+    if isinstance(b[k], ast.Assign) and _is_name(b[k].targets[0], "data") and isinstance(b[k].value, ast.Call) and getattr(b[k].value.func, "id", None) == "check_data":
+        k += 1      # data = check_data(data): tuple-ness is in the typing
+    st = b[k]
+    v = st.value if isinstance(st, ast.Assign) and _is_name(st.targets[0], "pred") else None
+    if isinstance(v, ast.Call) and getattr(v.func, "id", None) == "check_data" and len(v.args) == 1:
+        v = v.args[0]
+    if not (isinstance(v, ast.Call) and isinstance(v.func, ast.Attribute) and _is_name(v.func.value, "self") and v.func.attr == "predict"
+            and len(v.args) == 1 and isinstance(v.args[0], ast.Name) and not v.keywords):
+        _fail(st, "filter: pred = self.predict(coordinates)")
+    lines.append(f"let pred ← self_predict {v.args[0].id}      -- self.predict({v.args[0].id})")
+    k += 1
+    st = b[k]
+    g = st.value.args[0] if (isinstance(st, ast.Assign) and _is_name(st.targets[0], "residuals") and isinstance(st.value, ast.Call)
+                             and getattr(st.value.func, "id", None) == "tuple" and isinstance(st.value.args[0], ast.GeneratorExp)) else None
+    ok = g is not None and len(g.generators) == 1 and not g.generators[0].ifs and isinstance(g.generators[0].target, ast.Tuple) \
+        and len(g.generators[0].target.elts) == 2 and isinstance(g.generators[0].iter, ast.Call) and getattr(g.generators[0].iter.func, "id", None) == "zip" \
+        and len(g.generators[0].iter.args) == 2 and all(isinstance(a, ast.Name) for a in g.generators[0].iter.args) \
+        and isinstance(g.elt, ast.BinOp) and isinstance(g.elt.op, ast.Sub)
+    if not ok:
+        _fail(st, "filter: residuals = tuple(a - b for a, b in zip(...))")
+    va, vb = [e.id for e in g.generators[0].target.elts]
+    la, lb = [a.id for a in g.generators[0].iter.args]
+
+    def operand(n):
+        if isinstance(n, ast.Name):
+            return n.id
+        # x.reshape(y.shape): the same values in the other array's shape (arrays are flat lists here)
+        if isinstance(n, ast.Call) and isinstance(n.func, ast.Attribute) and n.func.attr == "reshape" and isinstance(n.func.value, ast.Name):
+            return n.func.value.id
+        _fail(n, "filter: operand of the residual")
+    left, right = operand(g.elt.left), operand(g.elt.right)
+    if {left, right} != {va, vb}:
+        _fail(st, "filter: residual operands")
+    lines.append(f"let residuals := List.zipWith (fun {va} {vb} => List.zipWith (· - ·) {left} {right}) {la} {lb}      -- tuple({left} - {right} for {va}, {vb} in zip({la}, {lb}))")
+    k += 1
+    if isinstance(b[k], ast.If) and isinstance(b[k].test, ast.Compare) and isinstance(b[k].test.left, ast.Call) and getattr(b[k].test.left.func, "id", None) == "len":
+        k += 1      # a single component is returned bare: typing
+    st = b[k]
+    if not (isinstance(st, ast.Return) and isinstance(st.value, ast.Tuple) and len(st.value.elts) == 3 and all(isinstance(e, ast.Name) for e in st.value.elts)
+            and k == len(b) - 1):
+        _fail(st, "filter: return coordinates, residuals, weights")
+    r = [e.id for e in st.value.elts]
+    lines.append(f"return (⟨{r[0]}, {r[1]}, {r[2]}⟩, some self_predict)      -- return {', '.join(r)}")
+    seg = ast.get_source_segment(src, fn)
+    return (f"/-- translated statement by statement from {path}:{fn.lineno}-{fn.end_lineno} (BaseGridder.filter), sha256 {hashlib.sha256(seg.encode()).hexdigest()[:16]} -/\n"
+            "def gridderFilter (self_fit : Rows → Except Err Predictor) (coordinates : List (List Rat)) (data : Data) (weights : Option Data) : "
+            "Except Err (Rows × Option Predictor) := do\n" + "\n".join("  " + ln for ln in lines) + "\n")
 
 
 def main_chain(write=True):
